@@ -72,7 +72,9 @@ CLAIMS["C10"] = dict(
           "held for the received URI, and the response equals the hash term built from the EXPECTED user, realm, password, nonce and the "
           "request's method (Basic: user and password equal). Hash functions and the URL rule are uninterpreted functions of their arguments. "
           "The Sender computes exactly the response Verify expects, and Basic credentials are refused for their shape only when the decoded string contains no colon at all (a password may contain ':'), with the user part holding no colon. "
-          "When the application reports an authentication failure, ServerConn.handleAuthError keeps the connection and adds the challenge exactly when the request being handled carries no credentials, and returns the error that ends the connection when it does."),
+          "When the application reports an authentication failure, ServerConn.handleAuthError keeps the connection and adds the challenge exactly when the request being handled carries no credentials, and returns the error that ends the connection when it does."
+          + B + "the challenge from GenerateWWWAuthenticate answered by the library's Sender and sent through Request.Marshal/Unmarshal is accepted by Verify, and rejected for another "
+          "user, password, realm, nonce, method, URL or a scheme that is not enabled: 8400 combinations of method sets, realms, nonces, users, passwords (with colons), request methods and URLs."),
     note=TRUST + "Strings are an uninterpreted sort with equality, length and concatenation. credentialsProvided is introduced by a 'defines' clause (what it answers for the request is named, not analysed). Full completeness (every header the Sender marshals is accepted after unmarshalling) is decided only on the bounded grid of C09; that the error returned by handleAuthError actually closes the connection is not decided.",
     design="DESIGN.md section 4, C10",
 )
@@ -168,8 +170,12 @@ CLAIMS["C19"] = dict(
 CLAIMS["C20"] = dict(
     text=("Deductive proof for the server's URL analysis helpers (stringsReverseIndex, getPathAndQuery, getPathAndQueryAndTrackID, findMediaByTrackID) that no URL makes them "
           "index or slice out of range, that a track id returned without error is never empty and path/query are never longer than the URL's, that "
-          "URL.CloneWithoutCredentials yields a new URL without user info and otherwise equal fields, and that Media.URL yields a URL or an error."),
-    note=TRUST + "Agreement between client-side control-URL resolution and server-side analysis over all URLs (a statement over strings) is NOT decided.",
+          "URL.CloneWithoutCredentials yields a new URL without user info and otherwise equal fields, and that Media.URL yields a URL or an error. Also proved: the last "
+          "'/trackID=' wins and the query form has priority over the path form; findMediaByURL matches a media only by equality with one of the URLs the server builds; "
+          "the advertised 'trackID=k' is the index findMediaByTrackID resolves back to the same media (over the assumed atou(itoa(k)) == k)."
+          + B + "client-side URL construction composed with the server-side analysis on 1728 stream URLs (hosts, paths and queries that themselves contain '/trackID=', "
+          "credentials, 1-12 medias): at DESCRIBE, every SETUP, PLAY, ANNOUNCE and record-side SETUP the server sees the original path and query, each SETUP reaches its media, no credentials in a request line."),
+    note=TRUST + "Agreement between client-side control-URL resolution and server-side analysis over ALL URLs (a statement over strings) is decided only on the bounded grid (not proved).",
     design="DESIGN.md section 4, C20",
 )
 
